@@ -129,7 +129,23 @@ func fixedCases() []Case {
 	li := ops.Op{K: "listitem", S: []string{"item"}, I: []int{1, 0, 1, 0}}
 	reopen := ops.Op{K: "reopen", B: []bool{false}}
 	tpl := ops.Op{K: "tpldoc", Data: &ops.Data{Imgs: map[string]gen.Img{"p": {Fmt: "gif", W: 6, H: 6, Pat: 9, Name: "d.gif"}}}}
+	// edge-argument calls (most of them rejected with an error) between valid ones; the package is judged right after each
+	eimg := func(v int) ops.Op {
+		return ops.Op{K: "ximage", Img: &gen.Img{Fmt: "png", W: 4, H: 3, Pat: 11, Name: "e.png"}, I: []int{0, 0, 0, 0, v}, F: []float64{0, 0}, S: []string{"", "", ""}}
+	}
+	efile := func(v int) ops.Op {
+		return ops.Op{K: "ximagefile", Img: &gen.Img{Fmt: "gif", W: 4, H: 3, Pat: 12, Name: "e.gif"}, I: []int{0, 0, 0, 0, v}, F: []float64{0, 0}, S: []string{"", "", ""}}
+	}
+	ecell := func(v int) ops.Op {
+		return ops.Op{K: "xcellimg", Img: &gen.Img{Fmt: "jpeg", W: 5, H: 5, Pat: 13, Name: "e.jpg"}, I: []int{0, 1, 1, v}, F: []float64{10}}
+	}
+	etpl := func(v int, again bool) ops.Op {
+		return ops.Op{K: "xtplfail", Img: &gen.Img{Fmt: "png", W: 6, H: 2, Pat: 14, Name: "t.png"}, I: []int{v}, B: []bool{true, false, again}}
+	}
 	return []Case{
+		{Ops: []ops.Op{img(1, "a.png"), eimg(0), eimg(1), img(2, "b.png"), efile(0), efile(2), tbl, ecell(1), ecell(4), ecell(5), cellimg(3, 0, 0), reopen, eimg(2), img(4, "c.png"),
+			{K: "xhf", I: []int{0, 1}, S: []string{"h"}}, {K: "xhf", I: []int{6, 0}, B: []bool{true}}, hdr, {K: "xlist", I: []int{0, 0, 0}, S: []string{"i"}}, {K: "xnote", I: []int{2}}, {K: "xsave", I: []int{1}}, reopen, img(5, "d.png")}},
+		{Ops: []ops.Op{img(1, "a.png"), hdr, etpl(2, false), img(2, "b.png"), etpl(4, true), img(3, "c.png"), reopen, etpl(0, false), ftr}},
 		// from scratch: every relationship-creating call once, with cycles in between
 		{Ops: []ops.Op{img(1, "a.png"), hdr, tbl, cellimg(2, 0, 0), li, reopen, ftr, img(3, "same.png"), cellimg(4, 1, 1), {K: "save"}, reopen, img(5, "c.JPEG")}},
 		// template image placeholder, then more images on the rendered document
